@@ -772,7 +772,15 @@ func (p *parser) assignCallee(exp ast.Expression, calleeIdent *ast.Identifier) (
 			p.errors = append(p.errors, msg)
 		}
 	case *ast.CallExpression:
-		ss.Callee = calleeIdent
+		if root, ok := ss.Callee.(*ast.Identifier); ok && root != nil {
+			// a[i].b.c(): keep the receiver path b and hang it below the indexed element
+			for root.Callee != nil {
+				root = root.Callee
+			}
+			root.Callee = calleeIdent
+		} else {
+			ss.Callee = calleeIdent
+		}
 		assignedCallee = ss
 	case *ast.Identifier:
 		ss.OriginalCallee.Callee = calleeIdent
